@@ -42,6 +42,59 @@ theorem exec_eq_spec (o : Oracle) (rootTy : String) (fields : List (FInfo × Sha
       have := h2.mp h; rw [hs] at this; cases this
     simp [h0, h1, h3 os hs, hs]
 
+/-- the same from any state that holds no error yet (what the operation's directives leave behind) -/
+theorem execRoot_from (o : Oracle) (rootTy : String) (fields : List (FInfo × Shape)) (hwf : fieldsWF fields)
+    (st : St) (hst : st.errs = []) :
+    (if (Impl.completeFields o rootTy fields [] st).2.1 > 0 then Out.null
+      else .obj (Impl.completeFields o rootTy fields [] st).1, (Impl.completeFields o rootTy fields [] st).2.2) =
+    ((Spec.execRoot o rootTy fields).1, st.append (Spec.execRoot o rootTy fields).2) := by
+  have h := fields_rel o rootTy fields [] st hwf (by intro f _ x hx; rw [hst] at hx; cases hx)
+  obtain ⟨h1, h2, h3, _⟩ := h
+  unfold Spec.execRoot
+  cases hs : (Spec.completeFields o rootTy fields []).1 with
+  | none =>
+    have : (Impl.completeFields o rootTy fields [] st).2.1 > 0 := h2.mpr hs
+    simp [this, h1, hs]
+  | some os =>
+    have h0 : ¬ (Impl.completeFields o rootTy fields [] st).2.1 > 0 := fun h => by
+      have := h2.mp h; rw [hs] at this; cases this
+    simp [h0, h1, h3 os hs, hs]
+
+/-- **Operation-level directives** (`_queryMiddleware` / `_mutationMiddleware`): the generated mechanism under
+any chain of operation directives is the Spec's - they decide first, at the empty path, and the root selection
+set is executed (exactly as without them) only when every one of them passes. -/
+theorem execOp_eq_spec (o : Oracle) (rootTy : String) (fields : List (FInfo × Shape)) (opDirs : List String)
+    (hwf : fieldsWF fields) :
+    Impl.execOp o rootTy fields opDirs = Spec.execOp o rootTy fields opDirs := by
+  unfold Impl.execOp Spec.execOp
+  have hne := runDirs_noErrs o [] opDirs.reverse
+  cases hr : Impl.runDirs o [] opDirs.reverse {} with
+  | mk c e =>
+    rw [hr] at hne
+    cases c with
+    | reached => simpa using execRoot_from o rootTy fields hwf e hne
+    | err m => simp [St.addErr_eq]
+    | block => simp [St.addErr_eq]
+    | panic m =>
+      simp only []
+      congr 1
+      apply St.ext' <;> simp [St.addErr]
+    | missing d => simp [St.unlogged_eq]
+
+/-- without operation directives `execOp` is `execRoot` -/
+theorem execOp_nil (o : Oracle) (rootTy : String) (fields : List (FInfo × Shape)) :
+    Impl.execOp o rootTy fields [] = Impl.execRoot o rootTy fields := by
+  simp [Impl.execOp, Impl.execRoot, Impl.runDirs]
+
+/-- a failing operation directive: `data` is null, its error is the only one, and nothing of the operation runs -/
+theorem operation_directive_error_blocks_the_operation (o : Oracle) (rootTy : String)
+    (fields : List (FInfo × Shape)) (d m : String) (h : o.dir [] d = .err m) :
+    Spec.execOp o rootTy fields [d] = (.null, Spec.eff [⟨[], m⟩] [(pathStr [], "directive:" ++ d)]) := by
+  simp only [Spec.execOp, List.reverse_cons, List.reverse_nil, List.nil_append, Impl.runDirs, h]
+  first
+    | rfl
+    | (congr 1; apply St.ext' <;> simp [St.invoked])
+
 /-- the decidable well-formedness the driver evaluates implies the hypothesis of `exec_eq_spec` -/
 theorem wfb_sound : ∀ fields : List (FInfo × Shape), fieldsWfb fields = true → fieldsWF fields := by
   intro fields
